@@ -37,14 +37,27 @@ LAYOUTS = {
 METHODS = [None, "map-reduce", "cohorts", "blockwise"]
 
 
-def planner_facts(codes, chunks, nlab):
+def factorized(codes, req):
+    """codes as groupby_reduce's early factorization leaves them: position among the requested (or the found, sorted) labels"""
+    if req is not None:
+        return [req.index(c) if c in req else -1 for c in codes], len(req)
+    present = sorted({c for c in codes if c >= 0})
+    return [present.index(c) if c >= 0 else -1 for c in codes], len(present)
+
+
+def planner_facts(fcodes, nlab, chunks, two_d_by, merge):
+    """fallback when the call did not reach the 'plan' hook: ask the planner directly on the same labels and chunk grid"""
     import pandas as pd
 
     from flox.core import find_group_cohorts
 
-    c = np.array(codes)
+    c = np.array(fcodes)
+    grid = (tuple(chunks),)
+    if two_d_by:
+        c = np.stack([c, c])
+        grid = ((1, 1), tuple(chunks))
     try:
-        pref, coh = find_group_cohorts(c, (tuple(chunks),), expected_groups=pd.RangeIndex(nlab), merge=False)
+        pref, coh = find_group_cohorts(c, grid, expected_groups=pd.RangeIndex(nlab), merge=merge)
         return pref, bool(coh)
     except Exception:  # noqa: BLE001
         return "map-reduce", False
@@ -114,19 +127,32 @@ def run_plan_case(case):
                 pass
             plan = [e for e in _verif.EVENTS if e["ev"] == "plan"]
             o = {"kind": "ok", "vals": [pv_out(x, 1e-9) for x in r.reshape(-1)], "shape": list(r.shape), "plan": plan[-1]["method"] if plan else "eager",
-                 "engine": plan[-1]["engine"] if plan else "-", "rb": ("T" if plan[-1]["reindex_blockwise"] else "F") if plan else "-"}
+                 "engine": plan[-1]["engine"] if plan else "-", "rb": ("T" if plan[-1]["reindex_blockwise"] else "F") if plan else "-",
+                 "preferred": plan[-1]["preferred"] if plan else None, "ncohorts": plan[-1]["ncohorts"] if plan else None}
             if m == "map-reduce" or (m is None and not (case["arrdask"] or case["bydask"])):
                 out["groups"] = redcase.label_tokens(g, kind)
         except Exception as e:  # noqa: BLE001
             o = {"kind": type(e).__name__, "vals": [], "shape": [], "msg": str(e)[:160]}
         outs.append(o)
     out["out"] = outs
-    pref, has = planner_facts(codes, chunks, (max(req) + 1) if req else max(codes) + 1)
+    fcodes, nlab = factorized(codes, req)
+    by2d = case["shape"] == "2dby"
+    pref, has = planner_facts(fcodes, nlab, chunks, by2d, False)
+    _, hasm = planner_facts(fcodes, nlab, chunks, by2d, True)
+    out["fcodes"] = fcodes
+    # the planner's answer is an INPUT of Plan.tla (the planner itself is C09's subject): take it from the call's own
+    # "plan" event when the call got that far (method=None consults it without merging, method='cohorts' with merging)
+    if outs[0].get("preferred") is not None and not case["bydask"]:
+        pref, has = outs[0]["preferred"], bool(outs[0]["ncohorts"])
+    if outs[2].get("ncohorts") is not None:
+        hasm = bool(outs[2]["ncohorts"])
     out["cfg"] = {"fclass": FUNCS[case["func"]], "engine": case["engine"] or "none", "method": "none",
                   "reindex": {None: "none", True: "true", False: "false"}[case["reindex"]], "arrDask": bool(case["arrdask"]), "byDask": bool(case["bydask"]),
                   "expected": req is not None, "dtypeArg": bool(case["dtypearg"]), "floatData": dtype == "f8",
                   "allAxes": not (case["shape"] == "2dby" and len(case["axis"]) == 1), "byNdim": 2 if case["shape"] == "2dby" else 1,
-                  "pref": pref, "hasCohorts": has, "oneBlock": len(chunks) == 1}
+                  "pref": pref, "hasCohorts": has, "hasCohortsM": hasm,
+                  # array.numblocks over the reduced axes: a 2-D grouper reduced over both axes also sees the two row blocks
+                  "oneBlock": len(chunks) == 1 and not (by2d and len(case["axis"]) == 2)}
     return out
 
 
@@ -176,7 +202,11 @@ def run(ctx):
         rec["out"] = outs
         line = {"id": len(lines), "out": [{"kind": o["kind"], "vals": o["vals"], "plan": o.get("plan", "-"), "engine": o.get("engine", "-"), "rb": o.get("rb", "-")} for o in rec["out"]],
                 # has_blockwise_nan_skipping: a "nan*" block function, which includes the nanlen counter of mean/var/count and of min_count > 0
-                "nanskip": rec["func"].startswith("nan") or rec["func"] in ("count", "mean", "var", "std") or (rec["req"] is not None and rec["func"] not in ("first", "last", "median")), "sortedlabels": [c for c in codes if True] == sorted(codes) and min(codes) >= 0,
+                "nanskip": rec["func"].startswith("nan") or rec["func"] in ("count", "mean", "var", "std") or (rec["req"] is not None and rec["func"] not in ("first", "last", "median"))
+                           # reducing over some axes of the labels only implies min_count=1, hence the nanlen counter
+                           or (rec["shape"] == "2dby" and len(rec["axis"]) == 1 and rec["func"] not in ("first", "last", "median")),
+                # _issorted on the factorized labels; on a 2-D label array it compares ROWS (equal rows here: always "sorted")
+                "sortedlabels": rec["shape"] == "2dby" or rec["fcodes"] == sorted(rec["fcodes"]),
                 "boolfamily": rec["func"] in ("any", "all"), "confined": bw_scope and confined(codes, chunks), "skipbw": not bw_scope,
                 "hascfg": True, "cfg": rec["cfg"]}
         owner[line["id"]] = rec
@@ -224,7 +254,7 @@ def run(ctx):
             ctx.violation(brief, "plan:" + "+".join(prop), {"predicted": f[3]})
         else:
             ctx.drift.append(f"outcome kinds differ from Plan.tla: {brief['func']},{brief['engine']},{brief['reindex']},arr={brief['arrdask']},by={brief['bydask']},exp={brief['expected']},"
-                             f"{brief['layout']},{brief['shape']},{brief['axis']}: real={[o['kind'] for o in rec['out']]} model={f[3]}")
+                             f"{brief['layout']},{brief['shape']},{brief['axis']}: real={[o['kind'] for o in rec['out']]} model={f[3]} differs={sorted(map(tuple, f[4])) if len(f) > 4 else '?'}")
     if not seen:
         raise MachineryFailure("TracePlan control (internal error + disagreeing plans) was accepted")
     ctx.add_traces(len(lines), stats, name="TracePlan")
